@@ -18,6 +18,8 @@ CONSTANTS
   NestSet <- NestNone
   TwoRuns = TRUE
   OpsB = 2
+  EqualLayers = FALSE
+  UseOrRoot = FALSE
 INVARIANT Visible
 INVARIANT Shadow
 INVARIANT DeleteLocal
